@@ -158,5 +158,5 @@ def instances(tier):
         out.append(I(f"m{m}-age{a}-buf{b}-per{ps}" + (f"-grid{g}" if g else ""), "make", (m, a, b, ps, g),
                      f"{m} samples, max_data_age_in_periods={a}, initial_buffer_len={b}, period {ps} s"
                      + (f", first sample and first tick enumerated on a {g} us grid" if g else ", all timestamps symbolic"),
-                     budget_s=300 if tier == "quick" else 600, validate_every=50, timeout_ms=30000, exhaustive=(m <= 3)))
+                     budget_s=300 if tier == "quick" else 600, validate_every=3, max_validate=400, timeout_ms=30000, exhaustive=(m <= 3)))
     return out
